@@ -1,6 +1,7 @@
 ---------------------------- MODULE Throttle ----------------------------
 (* Implementation-shaped specification of ThrottleExecutor (more_executors/_impl/throttle.py) with a
-   static count, at the granularity of the engine's visible synchronisation operations:
+   static count or (Dyn = TRUE) a count callable whose answer changes from V0 to V1 at time ChangeAt (99 stands for
+   None = unlimited, 98 for "the callable raises": the last good value stays in force), at the granularity of the engine's visible synchronisation operations:
 
        visible primitives = the shutdown gate (held for the whole of submit(), including while a blocking
                             submit() waits), executor._lock (queue), executor._event, virtual-time sleeps.
@@ -18,22 +19,23 @@
 *)
 EXTENDS ThrottleObs
 
-CONSTANTS Jobs, Count, Block, SubmitTimes, Durs, CancelTimes, CancelVals, Horizon, KeepHist, AsShipped_D6, Bug
+CONSTANTS Jobs, Count, Dyn, V0, V1, ChangeAt, Block, SubmitTimes, Durs, CancelTimes, CancelVals, Horizon, KeepHist, AsShipped_D6, Bug
 
 NoOne == <<"none", 0>>
 LOOP == <<"loop", 0>>
 OBS  == <<"obs", 0>>
+CH   == <<"ch", 0>>     \* the harness thread announcing the change of the scripted count
 Sub(j) == <<"sub", j>>
 Env(j) == <<"env", j>>
 Can(j) == <<"can", j>>
-Threads == {LOOP, OBS} \cup {Sub(j) : j \in Jobs} \cup {Env(j) : j \in Jobs} \cup {Can(j) : j \in Jobs}
+Threads == {LOOP, OBS, CH} \cup {Sub(j) : j \in Jobs} \cup {Env(j) : j \in Jobs} \cup {Can(j) : j \in Jobs}
 
 VARIABLES cfgS, cfgD, cfgK, cfgC,
-          pc, queue, running, gate, evt, woken, jst, batch, wt, wdl, sdl, edl, now,
+          pc, queue, running, gate, evt, woken, jst, batch, wt, wdl, sdl, edl, lastgood, sval, lthr, now,
           obs, viol, hist, actor
 
 cfg  == <<cfgS, cfgD, cfgK, cfgC>>
-vars == <<cfgS, cfgD, cfgK, cfgC, pc, queue, running, gate, evt, woken, jst, batch, wt, wdl, sdl, edl, now,
+vars == <<cfgS, cfgD, cfgK, cfgC, pc, queue, running, gate, evt, woken, jst, batch, wt, wdl, sdl, edl, lastgood, sval, lthr, now,
           obs, viol, hist, actor>>
 
 RECURSIVE Feed(_, _, _)
@@ -51,13 +53,20 @@ NoEmit == UNCHANGED <<obs, viol, hist>>
 Init ==
   /\ cfgS \in [Jobs -> SubmitTimes] /\ cfgD \in [Jobs -> Durs]
   /\ cfgK \in [Jobs -> CancelTimes] /\ cfgC \in [Jobs -> CancelVals]
+  /\ lastgood = (IF Dyn THEN V0 ELSE Count) /\ sval = [j \in Jobs |-> 0]
+  /\ lthr = (IF Dyn THEN V0 ELSE Count)     \* the hand-over thread evaluates the count before it takes the lock
   /\ pc = [t \in Threads |-> IF t = LOOP THEN "l_top" ELSE IF t = OBS THEN "o_sleep"
+                              ELSE IF t = CH THEN (IF Dyn THEN "ch_sleep" ELSE "done")
                               ELSE IF t[1] = "sub" THEN "s_sleep" ELSE IF t[1] = "env" THEN "e_idle" ELSE "c_idle"]
   /\ queue = <<>> /\ running = 0 /\ gate = NoOne /\ evt = FALSE /\ woken = {}
   /\ jst = [j \in Jobs |-> "new"] /\ batch = <<>> /\ wt = 0 /\ wdl = -1
   /\ sdl = [j \in Jobs |-> -1] /\ edl = [j \in Jobs |-> -1] /\ now = 0
-  /\ obs = ObsNext(ObsInit, Ev("Cfg", "-", "main", 0, -1, -1, Count, IF Block THEN 1 ELSE 0, -1, "", <<>>))
-  /\ viol = "ok" /\ hist = <<>> /\ actor = <<"-", 0>>
+  /\ obs = IF Dyn
+             THEN ObsNext(ObsNext(ObsNext(ObsInit, Ev("Cfg", "-", "main", 0, -1, -1, -2, IF Block THEN 1 ELSE 0, -1, "", <<>>)),
+                                  E2("CountRet", "main", 0, -1, IF V0 = 99 THEN -1 ELSE V0)),       \* the constructor's call
+                          E2("CountRet", "throttle", 0, -1, IF V0 = 99 THEN -1 ELSE V0))            \* the thread's first evaluation
+             ELSE ObsNext(ObsInit, Ev("Cfg", "-", "main", 0, -1, -1, Count, IF Block THEN 1 ELSE 0, -1, "", <<>>))
+  /\ viol = "ok" /\ hist = (IF Dyn /\ KeepHist THEN << <<"CountRet", -1, 0>> >> ELSE <<>>) /\ actor = <<"-", 0>>
 
 \* Event semantics are CPython's, two-phase: at "l_wait"/"s_wait" the thread is about to call wait() and
 \* first looks at the flag; only in "l_blocked"/"s_blocked" is it a registered waiter that set() wakes.
@@ -71,43 +80,52 @@ SSleep(j) ==
   /\ pc' = [pc EXCEPT ![Sub(j)] = "s_gate"]
   /\ Emit(<<E1("SubmitCall", "client", now, j)>>)
   /\ actor' = Sub(j)
-  /\ UNCHANGED <<cfg, queue, running, gate, evt, woken, jst, batch, wt, wdl, sdl, edl, now>>
+  /\ UNCHANGED <<cfg, queue, running, gate, evt, woken, jst, batch, wt, wdl, sdl, edl, lastgood, sval, lthr, now>>
 
-HasRoom == Len(queue) < Count
+\* _eval_throttle(): the scripted answer now; 98 = raises (last good value stays), 99 = None (no limit)
+CurAns == IF ~Dyn THEN Count ELSE IF now >= ChangeAt THEN V1 ELSE V0
+EvalVal == IF CurAns = 98 THEN lastgood ELSE CurAns
+EvalEvents(role) == IF ~Dyn THEN <<>>
+                    ELSE IF CurAns = 98 THEN <<E0("CountRaise", role, now)>>
+                    ELSE <<E2("CountRet", role, now, -1, IF CurAns = 99 THEN -1 ELSE CurAns)>>
+Unlim(v) == v = 99
+HasRoomFor(v) == Unlim(v) \/ Len(queue) < v
 
 G_SGate(j) == pc[Sub(j)] = "s_gate" /\ gate = NoOne
 SGate(j) ==    \* with ensure_alive(): _block_until_ready(_eval_throttle()) ...
   /\ G_SGate(j)
   /\ gate' = Sub(j)
-  /\ IF Block /\ ~HasRoom
+  /\ sval' = [sval EXCEPT ![j] = EvalVal]
+  /\ lastgood' = EvalVal
+  /\ IF Block /\ ~HasRoomFor(EvalVal)
        THEN pc' = [pc EXCEPT ![Sub(j)] = "s_wait"]
        ELSE pc' = [pc EXCEPT ![Sub(j)] = "s_lock"]
   /\ actor' = Sub(j)
-  /\ NoEmit
-  /\ UNCHANGED <<cfg, queue, running, evt, woken, jst, batch, wt, wdl, sdl, edl, now>>
+  /\ IF Dyn THEN Emit(EvalEvents("client")) ELSE NoEmit
+  /\ UNCHANGED <<cfg, queue, running, evt, woken, jst, batch, wt, wdl, sdl, edl, lthr, now>>
 
 G_SEnter(j) == pc[Sub(j)] = "s_wait"
 SEnter(j) ==   \* self._event.wait(30.0): flag set -> returns at once (and re-checks), else block
   /\ G_SEnter(j)
   /\ IF evt
-       THEN IF HasRoom
+       THEN IF HasRoomFor(sval[j])
               THEN /\ pc' = [pc EXCEPT ![Sub(j)] = "s_lock"] /\ UNCHANGED sdl
               ELSE /\ pc' = [pc EXCEPT ![Sub(j)] = "s_wait"] /\ UNCHANGED sdl
        ELSE /\ pc' = [pc EXCEPT ![Sub(j)] = "s_blocked"] /\ sdl' = [sdl EXCEPT ![j] = now + 30000 + 1]
   /\ actor' = Sub(j)
   /\ NoEmit
-  /\ UNCHANGED <<cfg, queue, running, gate, evt, woken, jst, batch, wt, wdl, edl, now>>
+  /\ UNCHANGED <<cfg, queue, running, gate, evt, woken, jst, batch, wt, wdl, edl, lastgood, sval, lthr, now>>
 
 G_SWake(j) == pc[Sub(j)] = "s_blocked" /\ (Sub(j) \in woken \/ now >= sdl[j])
 SWake(j) ==    \* the blocked wait returned; re-check the queue length
   /\ G_SWake(j)
   /\ woken' = woken \ {Sub(j)}
-  /\ IF HasRoom
+  /\ IF HasRoomFor(sval[j])
        THEN pc' = [pc EXCEPT ![Sub(j)] = "s_lock"]
        ELSE pc' = [pc EXCEPT ![Sub(j)] = "s_wait"]
   /\ actor' = Sub(j)
   /\ NoEmit
-  /\ UNCHANGED <<cfg, queue, running, gate, evt, jst, batch, wt, wdl, sdl, edl, now>>
+  /\ UNCHANGED <<cfg, queue, running, gate, evt, jst, batch, wt, wdl, sdl, edl, lastgood, sval, lthr, now>>
 
 G_SLock(j) == pc[Sub(j)] = "s_lock"
 SLock(j) ==    \* with self._lock: self._to_submit.append(job)
@@ -117,7 +135,7 @@ SLock(j) ==    \* with self._lock: self._to_submit.append(job)
   /\ pc' = [pc EXCEPT ![Sub(j)] = "s_set"]
   /\ actor' = Sub(j)
   /\ NoEmit
-  /\ UNCHANGED <<cfg, running, gate, evt, woken, batch, wt, wdl, sdl, edl, now>>
+  /\ UNCHANGED <<cfg, running, gate, evt, woken, batch, wt, wdl, sdl, edl, lastgood, sval, lthr, now>>
 
 G_SSet(j) == pc[Sub(j)] = "s_set"
 SSet(j) ==     \* self._event.set(); return out
@@ -127,21 +145,21 @@ SSet(j) ==     \* self._event.set(); return out
   /\ pc' = [pc EXCEPT ![Sub(j)] = "done", ![Can(j)] = IF cfgK[j] < 90000 THEN "c_sleep" ELSE "c_never"]
   /\ Emit(<<E1("SubmitRet", "client", now, j)>>)
   /\ actor' = Sub(j)
-  /\ UNCHANGED <<cfg, queue, running, jst, batch, wt, wdl, sdl, edl, now>>
+  /\ UNCHANGED <<cfg, queue, running, jst, batch, wt, wdl, sdl, edl, lastgood, sval, lthr, now>>
 
 \* ------------------------------------------------------------------ hand-over thread
 \* hand the batch over: _do_submit for each job (delegate.submit, add_done_callback, _set_delegate), then the
 \* wait time is chosen: 30 s if anything is running, else 2 s
-HandOver(b, run) ==
+HandOver(b, run, pre) ==
   /\ jst' = [j \in Jobs |-> IF \E i \in DOMAIN b : b[i] = j THEN "handed" ELSE jst[j]]
   /\ edl' = [j \in Jobs |-> IF \E i \in DOMAIN b : b[i] = j THEN now + cfgD[j] ELSE edl[j]]
   /\ pc' = [t \in Threads |-> IF t = LOOP THEN "l_wait"
                                ELSE IF t[1] = "env" /\ (\E i \in DOMAIN b : b[i] = t[2]) THEN "e_sleep" ELSE pc[t]]
   /\ wt' = (IF run > 0 THEN 30000 ELSE 2000)
   /\ batch' = <<>>
-  /\ Emit([i \in DOMAIN b |-> ES("DelegateSubmit", "throttle", now, b[i], "tap")])
+  /\ Emit(pre \o [i \in DOMAIN b |-> ES("DelegateSubmit", "throttle", now, b[i], "tap")])
 
-Limit0 == IF Bug = "off_by_one" THEN Count + 1 ELSE Count
+Limit0 == IF Unlim(lthr) THEN 1000 ELSE IF Bug = "off_by_one" THEN lthr + 1 ELSE lthr
 
 G_LTop == pc[LOOP] = "l_top"
 LTop ==        \* _eval_throttle; with _lock: pop while running < throttle; then hand over
@@ -155,17 +173,17 @@ LTop ==        \* _eval_throttle; with _lock: pop while running < throttle; then
         /\ IF ~AsShipped_D6 /\ n > 0
              THEN /\ batch' = b /\ pc' = [pc EXCEPT ![LOOP] = "l_popset"]
                   /\ NoEmit /\ UNCHANGED <<jst, edl, wt>>
-             ELSE HandOver(b, running + n)
+             ELSE HandOver(b, running + n, <<>>)
   /\ actor' = LOOP
-  /\ UNCHANGED <<cfg, gate, evt, woken, wdl, sdl, now>>
+  /\ UNCHANGED <<cfg, gate, evt, woken, wdl, sdl, lastgood, sval, lthr, now>>
 
 G_LPopSet == pc[LOOP] = "l_popset"
 LPopSet ==     \* (repaired code only) the queue shrank: wake submitters blocked in _block_until_ready
   /\ G_LPopSet
   /\ SetEvent
-  /\ HandOver(batch, running)
+  /\ HandOver(batch, running, <<>>)
   /\ actor' = LOOP
-  /\ UNCHANGED <<cfg, queue, running, gate, wdl, sdl, now>>
+  /\ UNCHANGED <<cfg, queue, running, gate, wdl, sdl, lastgood, sval, lthr, now>>
 
 G_LEnter == pc[LOOP] = "l_wait"
 LEnter ==      \* event.wait(wait_time): look at the flag; block only if it is clear
@@ -174,7 +192,7 @@ LEnter ==      \* event.wait(wait_time): look at the flag; block only if it is c
             ELSE /\ pc' = [pc EXCEPT ![LOOP] = "l_blocked"] /\ wdl' = now + wt + 1
   /\ actor' = LOOP
   /\ NoEmit
-  /\ UNCHANGED <<cfg, queue, running, gate, evt, woken, jst, batch, wt, sdl, edl, now>>
+  /\ UNCHANGED <<cfg, queue, running, gate, evt, woken, jst, batch, wt, sdl, edl, lastgood, sval, lthr, now>>
 
 G_LWake == pc[LOOP] = "l_blocked" /\ (LOOP \in woken \/ now >= wdl)
 LWake ==
@@ -183,16 +201,17 @@ LWake ==
   /\ pc' = [pc EXCEPT ![LOOP] = "l_clear"]
   /\ actor' = LOOP
   /\ NoEmit
-  /\ UNCHANGED <<cfg, queue, running, gate, evt, jst, batch, wt, wdl, sdl, edl, now>>
+  /\ UNCHANGED <<cfg, queue, running, gate, evt, jst, batch, wt, wdl, sdl, edl, lastgood, sval, lthr, now>>
 
 G_LClear == pc[LOOP] = "l_clear"
-LClear ==
+LClear ==      \* event.clear(); next iteration: _eval_throttle() (user code), then executor._lock
   /\ G_LClear
   /\ evt' = FALSE
+  /\ lthr' = EvalVal /\ lastgood' = EvalVal
   /\ pc' = [pc EXCEPT ![LOOP] = "l_top"]
   /\ actor' = LOOP
-  /\ NoEmit
-  /\ UNCHANGED <<cfg, queue, running, gate, woken, jst, batch, wt, wdl, sdl, edl, now>>
+  /\ IF Dyn THEN Emit(EvalEvents("throttle")) ELSE NoEmit
+  /\ UNCHANGED <<cfg, queue, running, gate, woken, jst, batch, wt, wdl, sdl, edl, sval, now>>
 
 \* ------------------------------------------------------------------ the delegate's work
 G_EFinish(j) == pc[Env(j)] = "e_sleep" /\ now >= edl[j]
@@ -206,7 +225,7 @@ EFinish(j) ==  \* work ends; first done-callback: running_count.decr(); next vis
        ELSE /\ pc' = [pc EXCEPT ![Env(j)] = "done"]
             /\ NoEmit /\ UNCHANGED <<jst, running>>
   /\ actor' = Env(j)
-  /\ UNCHANGED <<cfg, queue, gate, evt, woken, batch, wt, wdl, sdl, edl, now>>
+  /\ UNCHANGED <<cfg, queue, gate, evt, woken, batch, wt, wdl, sdl, edl, lastgood, sval, lthr, now>>
 
 G_ESet(j) == pc[Env(j)] = "e_set"
 ESet(j) ==     \* event.set(); second callback resolves the throttled future
@@ -215,7 +234,7 @@ ESet(j) ==     \* event.set(); second callback resolves the throttled future
   /\ pc' = [pc EXCEPT ![Env(j)] = "done"]
   /\ Emit(<<ESA("Observed", "env", now, j, "FINISHED", 0, j)>>)
   /\ actor' = Env(j)
-  /\ UNCHANGED <<cfg, queue, running, gate, jst, batch, wt, wdl, sdl, edl, now>>
+  /\ UNCHANGED <<cfg, queue, running, gate, jst, batch, wt, wdl, sdl, edl, lastgood, sval, lthr, now>>
 
 \* ------------------------------------------------------------------ cancel()
 G_CStart(j) == pc[Can(j)] = "c_sleep" /\ now >= cfgK[j]
@@ -237,7 +256,7 @@ CStart(j) ==
                       E2("CancelRet", "canceller", now, j, IF jst[j] = "cancelled" THEN 1 ELSE 0)>>)
             /\ UNCHANGED <<jst, running>>
   /\ actor' = Can(j)
-  /\ UNCHANGED <<cfg, queue, gate, evt, woken, batch, wt, wdl, sdl, edl, now>>
+  /\ UNCHANGED <<cfg, queue, gate, evt, woken, batch, wt, wdl, sdl, edl, lastgood, sval, lthr, now>>
 
 G_CLock(j) == pc[Can(j)] = "c_lock"
 CLock(j) ==    \* with self._lock: remove the job if it is still queued
@@ -254,7 +273,7 @@ CLock(j) ==    \* with self._lock: remove the job if it is still queued
             /\ Emit(<<E2("CancelRet", "canceller", now, j, 0)>>)
             /\ UNCHANGED <<queue, jst>>
   /\ actor' = Can(j)
-  /\ UNCHANGED <<cfg, running, gate, evt, woken, batch, wt, wdl, sdl, edl, now>>
+  /\ UNCHANGED <<cfg, running, gate, evt, woken, batch, wt, wdl, sdl, edl, lastgood, sval, lthr, now>>
 
 G_CQSet(j) == pc[Can(j)] = "c_qset"
 CQSet(j) ==    \* (repaired code only) the queue shrank: event.set()
@@ -264,7 +283,7 @@ CQSet(j) ==    \* (repaired code only) the queue shrank: event.set()
   /\ Emit(<<E2("CancelRet", "canceller", now, j, 1),
             ESA("Observed", "canceller", now, j, "CANCELLED_AND_NOTIFIED", -1, -1)>>)
   /\ actor' = Can(j)
-  /\ UNCHANGED <<cfg, queue, running, gate, jst, batch, wt, wdl, sdl, edl, now>>
+  /\ UNCHANGED <<cfg, queue, running, gate, jst, batch, wt, wdl, sdl, edl, lastgood, sval, lthr, now>>
 
 G_CSet(j) == pc[Can(j)] = "c_set"
 CSet(j) ==     \* the cancelled delegate's callback: event.set(); cancel() returns True
@@ -274,7 +293,16 @@ CSet(j) ==     \* the cancelled delegate's callback: event.set(); cancel() retur
   /\ Emit(<<E2("CancelRet", "canceller", now, j, 1),
             ESA("Observed", "canceller", now, j, "CANCELLED_AND_NOTIFIED", -1, -1)>>)
   /\ actor' = Can(j)
-  /\ UNCHANGED <<cfg, queue, running, gate, jst, batch, wt, wdl, sdl, edl, now>>
+  /\ UNCHANGED <<cfg, queue, running, gate, jst, batch, wt, wdl, sdl, edl, lastgood, sval, lthr, now>>
+
+\* ------------------------------------------------------------------ the scripted count changes
+G_ChTick == pc[CH] = "ch_sleep" /\ now >= ChangeAt
+ChTick ==
+  /\ G_ChTick
+  /\ pc' = [pc EXCEPT ![CH] = "done"]
+  /\ Emit(<<E2("CountChange", "main", now, -1, IF V1 = 99 THEN -1 ELSE IF V1 = 98 THEN -3 ELSE V1)>>)
+  /\ actor' = CH
+  /\ UNCHANGED <<cfg, queue, running, gate, evt, woken, jst, batch, wt, wdl, sdl, edl, lastgood, sval, lthr, now>>
 
 \* ------------------------------------------------------------------ observer, time
 G_OEnd == pc[OBS] = "o_sleep" /\ now >= Horizon
@@ -283,12 +311,12 @@ OEnd ==
   /\ pc' = [pc EXCEPT ![OBS] = "done"]
   /\ Emit(<<E0("End", "main", now)>>)
   /\ actor' = OBS
-  /\ UNCHANGED <<cfg, queue, running, gate, evt, woken, jst, batch, wt, wdl, sdl, edl, now>>
+  /\ UNCHANGED <<cfg, queue, running, gate, evt, woken, jst, batch, wt, wdl, sdl, edl, lastgood, sval, lthr, now>>
 
 AnyEnabled ==
   \/ \E j \in Jobs : \/ G_SSleep(j) \/ G_SGate(j) \/ G_SEnter(j) \/ G_SWake(j) \/ G_SLock(j) \/ G_SSet(j)
                      \/ G_EFinish(j) \/ G_ESet(j) \/ G_CStart(j) \/ G_CLock(j) \/ G_CQSet(j) \/ G_CSet(j)
-  \/ G_LTop \/ G_LPopSet \/ G_LEnter \/ G_LWake \/ G_LClear \/ G_OEnd
+  \/ G_LTop \/ G_LPopSet \/ G_LEnter \/ G_LWake \/ G_LClear \/ G_OEnd \/ G_ChTick
 
 Deadlines ==
   {cfgS[j] : j \in {x \in Jobs : pc[Sub(x)] = "s_sleep"}}
@@ -297,17 +325,18 @@ Deadlines ==
   \cup {cfgK[j] : j \in {x \in Jobs : pc[Can(x)] = "c_sleep"}}
   \cup (IF pc[LOOP] = "l_blocked" THEN {wdl} ELSE {})
   \cup (IF pc[OBS] = "o_sleep" THEN {Horizon} ELSE {})
+  \cup (IF pc[CH] = "ch_sleep" THEN {ChangeAt} ELSE {})
 
 Tick ==
   /\ ~AnyEnabled /\ Deadlines # {}
   /\ now' = CHOOSE d \in Deadlines : \A x \in Deadlines : d <= x
   /\ actor' = <<"tick", 0>>
-  /\ UNCHANGED <<cfg, pc, queue, running, gate, evt, woken, jst, batch, wt, wdl, sdl, edl, obs, viol, hist>>
+  /\ UNCHANGED <<cfg, pc, queue, running, gate, evt, woken, jst, batch, wt, wdl, sdl, edl, obs, viol, hist, lastgood, sval, lthr>>
 
 Next ==
   \/ \E j \in Jobs : \/ SSleep(j) \/ SGate(j) \/ SEnter(j) \/ SWake(j) \/ SLock(j) \/ SSet(j)
                      \/ EFinish(j) \/ ESet(j) \/ CStart(j) \/ CLock(j) \/ CQSet(j) \/ CSet(j)
-  \/ LTop \/ LPopSet \/ LEnter \/ LWake \/ LClear \/ OEnd \/ Tick
+  \/ LTop \/ LPopSet \/ LEnter \/ LWake \/ LClear \/ OEnd \/ ChTick \/ Tick
 
 Spec == Init /\ [][Next]_vars
 
@@ -317,5 +346,5 @@ ContractHolds == viol = "ok"
 ContractHoldsButD6 == viol \in {"ok", "C07_BlockOnlyWhileFull"}
 CounterSound == Cardinality({j \in Jobs : jst[j] = "handed"}) + Len(batch) <= running
 StopAtHorizon == now <= Horizon
-View == <<cfg, pc, queue, running, gate, evt, woken, jst, batch, wt, wdl, sdl, edl, now, obs, viol>>
+View == <<cfg, pc, queue, running, gate, evt, woken, jst, batch, wt, wdl, sdl, edl, lastgood, sval, lthr, now, obs, viol>>
 =============================================================================
